@@ -44,6 +44,11 @@ def run_one(pid: str, tier: str, seed: int) -> int:
         print("model driver missing after build:\n" + proofs["log"][-3000:], flush=True)
         rep.violation("build-failed", {"log": proofs["log"][-3000:]}, no_input=True)
         return rep.finish("proof", {"evaluations": 0, "distinct_nontrivial": 0}, [])
+    if tier == "thorough" and proofs.get("ok"):
+        proofs["coqchk"] = common.coqchk(pid)
+        if not proofs["coqchk"]["ok"]:
+            proofs["ok"] = False
+            proofs["failed"] = "coqchk: " + proofs["coqchk"]["summary"][-300:]
     ctx = {"rep": rep, "tier": tier, "seed": seed, "gen": gen, "proofs": proofs}
     try:
         rc = mod.run(ctx)
